@@ -28,7 +28,7 @@ def _comembership(lab):
 
 
 def check(case, ctx):
-    A = np.array(case["A"])
+    A = gen.layout(np.array(case["A"]), case.get("order"))
     n = len(A)
     fails = []
     A0 = A.copy()
@@ -198,7 +198,7 @@ def cases(draw, nmax):
         for i, b in enumerate(bits):
             if b:
                 W[i, i] = 1 if W.dtype.kind == "i" else 0.5
-    return {"A": W, "family": fam}
+    return {"A": W, "family": fam, "order": draw(st.sampled_from(gen.ORDERS))}
 
 
 _SPACES = {}
@@ -213,7 +213,7 @@ def _space(tier):
 
 def _exh_cases(tier, lo, hi):
     for n, d, A, k in _space(tier).range(lo, hi):
-        yield {"A": A.astype(float), "family": "exhaustive"}
+        yield {"A": A.astype(float) if k % 3 else A.copy(), "family": "exhaustive", "order": gen.ORDERS[k % len(gen.ORDERS)]}
 
 
 def units(tier):
